@@ -291,10 +291,8 @@ func e11RootCase(seed uint64, L, mask int, n int) Case {
 			}
 		}
 		if L > kcache.EventBufsiz+1 && len(stalled) > 0 {
+			// (informational only: whether and how an overrun is logged is not specified)
 			r.Add("overruns", int64(core.Overruns()))
-			if core.Overruns() == 0 {
-				r.Inc("no buffer overrun was logged although a stalled consumer saw more than 100 events")
-			}
 		}
 		r.Add("published", int64(len(sent)))
 		r.Set("signatures", strconv.FormatUint(core.Signature(), 16))
@@ -476,14 +474,8 @@ func e11CtlCase(seed uint64, L, mask int) Case {
 			if i == 0 && L > kcache.EventBufsiz {
 				// the overrun consumer resumes with a PARTIAL read (its buffer now has
 				// room), then 20 more events are published: those fit and must arrive
-				for k := 0; k < 50; k++ {
-					select {
-					case e, ok := <-s.Events():
-						if ok {
-							got = append(got, evrec{Type: e.Type(), Key: kit.Key(e.Resource()), RV: e.Resource().ResourceVersion})
-						}
-					default:
-					}
+				for _, e := range takeSettled(core, s.Events(), 50) {
+					got = append(got, evrec{Type: e.Type(), Key: kit.Key(e.Resource()), RV: e.Resource().ResourceVersion})
 				}
 				before := len(srv.LogCopy())
 				for k := 0; k < 20; k++ {
@@ -522,17 +514,8 @@ func e11CtlCase(seed uint64, L, mask int) Case {
 					}
 				}(fresh, &got)
 			}
-		drain:
-			for {
-				select {
-				case e, ok := <-s.Events():
-					if !ok {
-						break drain
-					}
-					got = append(got, evrec{Type: e.Type(), Key: kit.Key(e.Resource()), RV: e.Resource().ResourceVersion})
-				default:
-					break drain
-				}
+			for _, e := range takeSettled(core, s.Events(), -1) {
+				got = append(got, evrec{Type: e.Type(), Key: kit.Key(e.Resource()), RV: e.Resource().ResourceVersion})
 			}
 			r.Add("stalled-streams-checked", 1)
 			if n, why := checkSubsequence(got, sent); n < 0 {
@@ -575,6 +558,37 @@ func e11CtlCase(seed uint64, L, mask int) Case {
 // lag exactly one buffer behind (they only read when their buffer is full)
 // while the producer runs flat out.  What they read may have gaps but must be
 // in publication order.
+// takeSettled receives up to max events (all if max < 0) the way a consumer that
+// resumes reading would: it stops only when nothing arrives although the whole
+// bubble has settled.  (A bare non-blocking read right after the first Events()
+// call would judge the scheduler, not the library: an implementation may move
+// events into the consumer-facing buffer lazily.)
+func takeSettled(core *kit.Core, ch <-chan pod.Event, max int) []pod.Event {
+	var out []pod.Event
+	for max < 0 || len(out) < max {
+		select {
+		case e, ok := <-ch:
+			if !ok {
+				return out
+			}
+			out = append(out, e)
+			continue
+		default:
+		}
+		core.Barrier()
+		select {
+		case e, ok := <-ch:
+			if !ok {
+				return out
+			}
+			out = append(out, e)
+		default:
+			return out
+		}
+	}
+	return out
+}
+
 func e11StressCase(seed uint64, n int) Case {
 	id := fmt.Sprintf("E11/stress-typed/%d/%d", seed, n)
 	return Case{ID: id, Desc: map[string]interface{}{"seed": seed, "n": n, "what": "typed consumers reading at the overrun boundary, real time"}, Bubble: false, Run: func(r *Res) {
